@@ -872,6 +872,9 @@ def dupSrc (x : Src) : Src := if x.dup && x.kind == .fd then { x with key := 100
 /-- `create_src`: task and threshold sources are one-shot whatever flags were given (`src->flags |= M_SRC_ONESHOT`) -/
 def forceOneshot (x : Src) : Src := if x.kind == .task || x.kind == .thresh then { x with oneshot := true } else x
 
+/-- `create_src`: descriptor sources are high priority whatever was asked for (`src->flags |= M_SRC_PRIO_HIGH`) -/
+def forceHigh (x : Src) : Src := if x.kind == .fd then { x with prio := .high } else x
+
 /-- `add_mod_src` (no token) -/
 def addSrc (s : St) (m : ModId) (x : Src) : St × Int :=
   match findSrc s m x.kind x.key x.role with
@@ -1052,7 +1055,7 @@ def apiRegSrc (m : ModId) (paramOk : Bool) (x : Src) (prioBits : Nat) : Prog Int
     if prioBits > 1 then pure EINVAL
     else do
       let s ← getSt
-      let (s', r) := addSrc s m (forceOneshot (dupSrc x))
+      let (s', r) := addSrc s m (forceHigh (forceOneshot (dupSrc x)))
       setSt s'; pure r
 
 def apiDeregSrc (m : ModId) (paramOk : Bool) (kind : SrcKind) (key : Nat) : Prog Int := do
